@@ -34,6 +34,7 @@ pub fn dispatch(
         "long" => long(args, thorough, seed, total, bounds),
         "aliased" => aliased(args, thorough, seed, total, bounds),
         "grid" => grid(args, thorough, seed, total, bounds),
+        "lgrid" => lgrid(args, thorough, seed, total, bounds),
         _ => return false,
     }
     true
@@ -1237,4 +1238,151 @@ fn grid(args: &Args, thorough: bool, seed: u64, total: &mut Report, bounds: &mut
     });
     total.merge(rep);
     bounds.insert("grid".into(), json!({"needle_len": [0, nmax], "haystack_len": [0, hmax], "all_length_pairs": true, "needle_kinds": nkinds, "occurrence": ["none", "one at EVERY position", "truncated at the end"]}));
+}
+
+/// Long needles at EVERY length 33..=300 (thorough 600): two rare bytes at
+/// every pair of positions from a set that brackets the u8 index limits, the
+/// vector widths and both ends; one-mismatch-run needles a^i b a^j with the
+/// short side left and right; periodic and long-period needles; all searched
+/// in haystacks with 0..=4 bytes in front and 0..=64 behind the occurrence,
+/// without occurrence (first / last byte changed), behind a prefix of the
+/// needle cut at many positions by a FOREIGN byte, and behind near misses.
+/// Then construction plus three searches for every length up to 1100.
+fn lgrid(args: &Args, thorough: bool, seed: u64, total: &mut Report, bounds: &mut Map<String, Value>) {
+    let kinds = crate::parse_kinds_pub(&args.str("subjects", "memmem,finder,finder-nopre,rmemmem,rfinder"));
+    let lmax = args.num("lmax", if thorough { 600 } else { 300 }) as usize;
+    let cmax = args.num("cmax", if thorough { 2100 } else { 1100 }) as usize;
+    let lens: Vec<usize> = (33..=cmax).collect();
+    let rep = par::run_items(&lens, |_, &l, r| {
+        let common: Vec<u8> = b"e ".iter().copied().cycle().take(l).collect();
+        let mut needles: Vec<Vec<u8>> = vec![];
+        if l <= lmax {
+            let mut ps: Vec<usize> = if thorough {
+                vec![0, 1, 2, l / 3, l / 2, 127, 128, 129, 240, 250, 253, 254, 255, 256, 257, l.saturating_sub(17), l.saturating_sub(16), l.saturating_sub(15), l - 3, l - 2, l - 1]
+            } else {
+                vec![0, 1, l / 2, 128, 250, 254, 255, 256, 257, l.saturating_sub(16), l - 2, l - 1]
+            };
+            ps.retain(|&p| p < l);
+            ps.sort();
+            ps.dedup();
+            for &p1 in &ps {
+                let mut v = common.clone();
+                v[p1] = b'z';
+                needles.push(v);
+                for &p2 in &ps {
+                    if p1 != p2 {
+                        let mut v = common.clone();
+                        v[p1] = b'z';
+                        v[p2] = b'q';
+                        needles.push(v);
+                    }
+                }
+            }
+            for i in [l / 4, l / 3, l / 2, 2 * l / 3, l.saturating_sub(33), 64, 70] {
+                if i < l {
+                    let mut v = vec![b'a'; l];
+                    v[i] = b'b';
+                    needles.push(v);
+                }
+            }
+            needles.push(b"ab".iter().copied().cycle().take(l).collect());
+            needles.push(b"aab".iter().copied().cycle().take(l).collect());
+            for per in [l - 3, l * 3 / 4, l / 2 + 1] {
+                let mut w = vec![b'e'; per];
+                w[0] = b'a';
+                w[per - 1] = b'z';
+                w[per / 2] = b'q';
+                needles.push(w.iter().copied().cycle().take(l).collect());
+            }
+            needles.push((0..l).map(|i| (i as u8).wrapping_mul(37).wrapping_add(11)).collect());
+        } else {
+            for p in [0usize, 256, l - 1] {
+                let mut v = common.clone();
+                v[p] = b'z';
+                needles.push(v);
+            }
+            needles.push(b"ab".iter().copied().cycle().take(l).collect());
+        }
+        needles.sort();
+        needles.dedup();
+        let mut ctx = Ctx::new();
+        let mut h: Vec<u8> = vec![];
+        let mut order = 0u64;
+        for needle in &needles {
+            ctx.set_needle(needle);
+            let subjects = build_all(r, &kinds, needle, None, seed);
+            let mut run = |h: &[u8], ctx: &mut Ctx, r: &mut Report| {
+                order += 1;
+                check_hay(ctx, r, &subjects, needle, h, Place::Plain, (order % 16) as usize, None, order);
+            };
+            if l > lmax {
+                run(&[], &mut ctx, r);
+                run(needle, &mut ctx, r);
+                h.clear();
+                h.extend_from_slice(b"...");
+                h.extend_from_slice(needle);
+                h.extend(std::iter::repeat(b'.').take(20));
+                run(&h, &mut ctx, r);
+                continue;
+            }
+            for pre in 0..=4usize {
+                for post in [0usize, 1, 2, 3, 4, 15, 16, 17, 31, 32, 33, 64] {
+                    for variant in 0..3 {
+                        if variant > 0 && (pre > 1 || post > 17) {
+                            continue;
+                        }
+                        h.clear();
+                        h.extend(std::iter::repeat(b'.').take(pre));
+                        h.extend_from_slice(needle);
+                        h.extend(std::iter::repeat(b'.').take(post));
+                        match variant {
+                            1 => h[pre + l - 1] = b'#',
+                            2 => h[pre] = b'#',
+                            _ => {}
+                        }
+                        run(&h, &mut ctx, r);
+                    }
+                }
+            }
+            // a prefix of the needle cut by a foreign byte, then the needle
+            let step = (l / 48).max(1);
+            let mut ks: Vec<usize> = (1..l).step_by(step).collect();
+            ks.extend_from_slice(&[l / 3, l / 3 + 1, l / 2, l / 2 + 1, l - 1]);
+            ks.sort();
+            ks.dedup();
+            for &k in &ks {
+                for foreign in [b'Z', b'.'] {
+                    h.clear();
+                    h.extend_from_slice(&needle[..k]);
+                    h.push(foreign);
+                    h.extend_from_slice(needle);
+                    h.extend_from_slice(b"...");
+                    run(&h, &mut ctx, r);
+                }
+            }
+            // near misses in front of the occurrence / alone
+            for j in [0, l / 2, l - 1] {
+                for gap in [0usize, 5] {
+                    for with in [true, false] {
+                        h.clear();
+                        h.extend_from_slice(needle);
+                        h[j] ^= 0x15;
+                        h.extend(std::iter::repeat(b'.').take(gap));
+                        if with {
+                            h.extend_from_slice(needle);
+                        } else {
+                            h.extend_from_slice(&needle[..l - 1]);
+                        }
+                        run(&h, &mut ctx, r);
+                    }
+                }
+            }
+            h.clear();
+            h.extend_from_slice(needle);
+            h.extend_from_slice(needle);
+            run(&h, &mut ctx, r);
+        }
+    });
+    total.merge(rep);
+    bounds.insert("lgrid".into(), json!({"needle_len": format!("every length 33..={}", lmax), "rare_byte_positions": if thorough { "every ordered pair from {0,1,2,l/3,l/2,127..129,240,250,253..257,l-17..l-15,l-3..l-1}" } else { "every ordered pair from {0,1,l/2,128,250,254..257,l-16,l-2,l-1}" }, "other_needles": ["a^i b a^j (i = l/4, l/3, l/2, 2l/3, l-33, 64, 70)", "(ab)*", "(aab)*", "W W[..r] for 3 periods", "37i+11"], "haystacks": ["pre 0..=4 x post {0..4,15..17,31..33,64}", "first / last byte of the occurrence changed", "needle[..k] + foreign byte + needle for k stepping l/48", "near miss (+gap) + needle / + needle minus last byte", "needle needle"], "construction_only": format!("every length {}..={} (3 searches each)", lmax + 1, cmax)}));
 }
